@@ -325,7 +325,7 @@ theorem reverse_forward_utm (zone : Int) (hz : 1 ≤ zone ∧ zone ≤ 60) (nort
   · have : 5 + prec = prec + 5 := by omega
     rw [this]
     simp only [List.drop_succ_cons]
-    rw [List.drop_left' lx, List.take_of_length_le (by rw [ly]; exact Nat.le_refl _),
+    rw [List.drop_left' lx, List.take_of_length_le (Nat.le_of_eq ly),
       readNum_digitsW digits 10 (by decide) digits_table_ok, Nat.mod_eq_of_lt hdyN]
   · have b1 : ((dx.toNat : Nat) : Int) = dx := Int.toNat_of_nonneg hdx0
     have b2 : ((dy.toNat : Nat) : Int) = dy := Int.toNat_of_nonneg hdy0
@@ -368,9 +368,11 @@ theorem decode_ups (s : List Nat) (cp : Bool) (kb kc kr prec ex ny : Nat)
     intro h
     rw [hlen] at hinv
     simp [List.map_take, h] at hinv
+  have hrow' := hrow
+  simp only [ge_iff_le, Nat.ofNat_le_cast] at hrow'
   unfold decodeInt
   simp only [hds, hlen, List.length_nil, List.foldl_nil]
-  simp [zUPS, hinv', l1, l2, l3, l6, hband, hcol, hrow, heast, hnorth, hk]
+  simp [zUPS, hinv', l1, l2, l3, l6, hband, hcol, hrow, hrow', heast, hnorth, hk]
   cases cp <;> rfl
 
 /-- the UPS string written by `MGRS::Forward` (integer level) -/
@@ -495,7 +497,7 @@ theorem reverse_forward_ups (northp : Bool) (ix iy : Int) (hix : 0 ≤ ix) (hiy 
     · have : 3 + prec = prec + 3 := by omega
       rw [this]
       simp only [List.drop_succ_cons]
-      rw [List.drop_left' lx, List.take_of_length_le (by rw [ly]; exact Nat.le_refl _),
+      rw [List.drop_left' lx, List.take_of_length_le (Nat.le_of_eq ly),
         readNum_digitsW digits 10 (by decide) digits_table_ok, Nat.mod_eq_of_lt hdyN]
     · have c1 : (((xh - cx).toNat : Nat) : Int) = xh - cx := Int.toNat_of_nonneg hx0
       have c2 : (((yh - cy).toNat : Nat) : Int) = yh - cy := Int.toNat_of_nonneg hy0
